@@ -173,6 +173,15 @@ def install():
     sp.SupervisorProxyServer.klass = _make_simproxy_class()
     from supvisors import plugin
     plugin.apply_patches()
+    # the real code keeps ProcessStatus / ApplicationStatus objects in sets (failed processes, conflicts): the default hash is
+    # the memory address, so their iteration order changes from one execution to the next. Identity semantics are kept
+    # (no __eq__), only the hash is made a function of the name (string hashes are pinned by PYTHONHASHSEED=0)
+    import supvisors.process as sproc
+    import supvisors.application as sapp
+    if '__eq__' not in sproc.ProcessStatus.__dict__:
+        sproc.ProcessStatus.__hash__ = lambda self: hash(('process', self.application_name, self.process_name))
+    if '__eq__' not in sapp.ApplicationStatus.__dict__:
+        sapp.ApplicationStatus.__hash__ = lambda self: hash(('application', self.application_name))
     _INSTALLED = True
 
 
